@@ -5,4 +5,11 @@ EXTENDS Naturals, Sequences, Json, IOUtils, TLC
 
 Rec == ndJsonDeserialize(IOEnv.TRACE)
 NRec == Len(Rec)
+
+\* POSTCONDITION for acceptor-style trace specs (one state per consumed event plus the initial
+\* state, CHECK_DEADLOCK FALSE): the run must have consumed every event; otherwise the 1-based
+\* index of the first event that no action of the specification explains is printed.
+TraceAccepted ==
+  LET d == TLCGet("stats").diameter IN
+  IF d - 1 = NRec THEN TRUE ELSE PrintT(<<"REJECTED-AT", d>>)
 =============================================================================
